@@ -41,8 +41,8 @@ __wrap_coap_free_type(coap_memory_tag_t type, void *p) {
   __real_coap_free_type(type, p);
 }
 
-enum { OP_REQ0, OP_REQ1, OP_REQ2, OP_REQ3, OP_REQREF0, OP_REL0, OP_OBS0, OP_CANCEL0, OP_ASYNC1, OP_TRIG, OP_CHG, OP_JUMP_BEFORE, OP_JUMP_PAST, OP_N };
-static const char *op_names[] = {"req(p0)", "req(p1)", "req(p2)", "req(p3)", "req+ref(p0)", "rel(p0)", "obs(p0)", "cancel(p0)", "async(p1)", "trig", "chg", "jump(T-1)", "jump(T+1)"};
+enum { OP_REQ0, OP_REQ1, OP_REQ2, OP_REQ3, OP_REQREF0, OP_REL0, OP_OBS0, OP_CANCEL0, OP_ASYNC1, OP_TRIG, OP_CHG, OP_JUMP_BEFORE, OP_JUMP_PAST, OP_QUIET0, OP_QUIET2, OP_N };
+static const char *op_names[] = {"req(p0)", "req(p1)", "req(p2)", "req(p3)", "req+ref(p0)", "rel(p0)", "obs(p0)", "cancel(p0)", "async(p1)", "trig", "chg", "jump(T-1)", "jump(T+1)", "quiet(p0)", "quiet(p2)"};
 #define NPEER 4
 #define TIMEOUT_S 5
 
@@ -284,6 +284,26 @@ do_op(int op) {
     send_req(op - OP_REQ0, "r", -1, (uint8_t)(0x10 + op));
     pump();
     break;
+  case OP_QUIET0:
+  case OP_QUIET2: {
+    /* a datagram the server hears but does not answer (NON GET with No-Response: all classes suppressed): receive
+     * activity without any transmission on the session */
+    int p = op == OP_QUIET0 ? 0 : 2;
+    struct w_buf w;
+    uint8_t tok = (uint8_t)(0x50 + p);
+    model_arrival(p);
+    w_begin(&w, 1, 1, next_mid++, &tok, 1);
+    w_opt_add(&w, 11, "r", 1);
+    w_opt_uint(&w, 258, 26);
+    int before = ns_total_sent();
+    ns_inject(&peer[p], &srv[peer_ep[p]], w.b, w.n);
+    pump();
+    if (ns_total_sent() != before)
+      tr("(answered!)");
+    else
+      vxp_count(2, 1);
+    break;
+  }
   case OP_REQREF0:
     model_arrival(0);
     take_ref_next = 1;
@@ -444,9 +464,9 @@ main(int argc, char **argv) {
   int T = vx_is_thorough();
   struct space sp[16];
   int nsp = 0;
-  for (int d = 1; d <= (T ? 6 : 4); d++)
+  for (int d = 1; d <= (T ? 6 : 5); d++)
     for (int mi = 0; mi < 3; mi++) {
-      if (d < (T ? 6 : 4) && d > 2)
+      if (d < (T ? 6 : 5) && d > 2)
         continue; /* shorter sequences are prefixes followed by teardown: depth 1,2 and the maximum are run explicitly */
       snprintf(sp[nsp].name, sizeof sp[nsp].name, "ops:depth=%d:max_idle=%d", d, mi);
       sp[nsp].depth = d;
@@ -454,7 +474,7 @@ main(int argc, char **argv) {
       nsp++;
     }
   /* intermediate depths too (teardown after every prefix length) */
-  for (int d = 3; d < (T ? 6 : 4); d++)
+  for (int d = 3; d < (T ? 6 : 5); d++)
     for (int mi = 0; mi < 3; mi++) {
       snprintf(sp[nsp].name, sizeof sp[nsp].name, "ops:depth=%d:max_idle=%d", d, mi);
       sp[nsp].depth = d;
@@ -480,9 +500,11 @@ main(int argc, char **argv) {
   }
   vx_ev_add_states((long long)total, (long long)total * 4, (long long)total);
   vx_ev_add_evals((long long)total, (long long)vxp_distinct_count());
-  vx_ev_rule("all operation sequences of depth 1..4 (thorough: ..6) over 13 operations {request from 4 peers (distinct address, same address other port, "
+  vx_ev_int("unanswered_datagrams_delivered", (long long)vxp_counter(2));
+  vx_ev_rule("all operation sequences of depth 1..5 (thorough: ..6) over 15 operations {request from 4 peers (distinct address, same address other port, "
              "same address+port on a second endpoint), request whose handler takes an application reference, release, observe register/cancel, "
-             "async register/trigger, resource change, time jump to timeout-1s / timeout+1s} x max_idle_sessions {0,1,2}, session_timeout 5 s, each "
+             "async register/trigger, resource change, time jump to timeout-1s / timeout+1s, a datagram from p0 / p2 that is heard but not answered "
+             "(NON with No-Response)} x max_idle_sessions {0,1,2}, session_timeout 5 s, each "
              "followed by context teardown; a reference model predicts every SERVER_SESSION_NEW/DEL; non-trivial = at least one session was deleted; "
              "distinct = distinct event traces");
   vx_ev_assumption("no network faults in this check (C06-C11 cover schedules); peers acknowledge Confirmable notifications");
